@@ -14,7 +14,7 @@ variable {m n : Nat} [NeZero m] [NeZero n]
 theorem tie_topsis_similarity (A : Mat m n α) (o : Vec n Obj) (w : Vec n α) (d : Vec n α → Vec n α → α) :
     (Gen.topsis_similarity ⟨A⟩ ⟨fun j => (o j).sgn⟩ ⟨w⟩ d).v = Agg.similarityWith d A o w := by
   funext i
-  simp only [Gen.topsis_similarity, Np.where, Np.equal, Np.max, Np.min, Np.multiply, Np.divide, Np.add, Np.cdist1, Bc.zw, Red.red,
+  simp only [Gen.topsis_similarity, Np.where, Np.equal, Np.max, Np.min, Np.multiply, Np.divide, Np.add, Np.cdist1, Np.asarray, Np.squeeze, Bc.zw, Red.red,
     Truthy.t, EMul.emul, Agg.similarityWith, id, sgn_eq_one, decide_eq_true_eq]
   first
     | rfl
